@@ -364,6 +364,26 @@ def registration_check(prop):
     return run
 
 
+def by_backend(obligations, not_discharged):
+    out = {}
+    for o in obligations:
+        if o.startswith('expansion/'):
+            b = 'structural comparison on the macro expansion (python)'
+        elif o.startswith('kani/'):
+            b = 'kani 0.68 / cbmc (loop-free full-domain harness)'
+        elif o.startswith('locks/'):
+            b = 'verus-z3 on generated rank / guard-liveness obligations'
+        elif o.startswith('bounded-exploration/'):
+            b = 'bounded search on the real code (not a proof)'
+        else:
+            b = 'verus-z3 on contracts spliced onto extracted code'
+        d = out.setdefault(b, dict(obligations=0, discharged=0))
+        d['obligations'] += 1
+        if o not in not_discharged:
+            d['discharged'] += 1
+    return out
+
+
 def load_known():
     res = []
     p = os.path.join(VERIF, 'known_findings.txt')
@@ -627,6 +647,7 @@ def main(argv):
             functions_under_contract=sorted(set(functions)),
             units=units_run,
             backend='verus 0.2026.09.13 (z3)' if units_run else 'none',
+            obligations_by_backend=by_backend(obligations, failed_names | unreached),
             solver_time_ms=round(solver_ms, 1),
             samples=sorted(obligations)[:12],
             failed=sorted(failed_names),
